@@ -229,6 +229,7 @@ AtomicMove<SlotType, BUFFER_SIZE> {
     /// consumers may have taken every element (and parked) while the publication was in progress, so wake-up decisions must not rely on it.
     #[inline(always)]
     pub fn len_after_publishing(&self, slot_id: u32) -> u32 {
+        vp!("am.p.len", slot_id);
         let head = self.head.load(Relaxed);
         i32::max(1, slot_id.overflowing_add(1).0.overflowing_sub(head).0 as i32) as u32
     }
